@@ -75,7 +75,7 @@ func spec_userAction(r int, dollarDolar *StateSym, Dollar []StateSym)
 //@ props C01 C06 C07 C08 C15 C17
 //@ requires state != nil && 0 <= StackPointer && StackPointer <= len(StateSymStack)
 //@ ensures StackPointer == old(StackPointer) + 1 && StackPointer <= len(StateSymStack) && len(StateSymStack) >= old(len(StateSymStack))
-//@ ensures [C01,C07] StateSymStack[old(StackPointer)] == old(*state)
+//@ ensures [C01,C07,C15,C08] StateSymStack[old(StackPointer)] == old(*state)
 //@ ensures [C01,C15] forall k int :: 0 <= k && k < old(StackPointer) ==> StateSymStack[k] == old(StateSymStack[k])
 // exactly one trace line per push: the symbol and the state of the entry pushed (C17)
 //@ ensures [C17] IsTrace ==> tlen == old(tlen) + 1 && printed_str(old(tlen), 0) == spec_symName(old(state.YySymIndex)) && printed_int(old(tlen), 1) == old(state.Yystate)
@@ -83,7 +83,7 @@ func spec_userAction(r int, dollarDolar *StateSym, Dollar []StateSym)
 //@ modifies StateSymStack, StackPointer, tlen
 
 //@ func PopStateSym
-//@ props C01 C07 C08
+//@ props C01 C07 C08 C15 C06 C17
 //@ ensures StackPointer == old(StackPointer) - num
 //@ modifies StackPointer
 
